@@ -1,6 +1,1317 @@
-//! driver stub (filled in by its check)
+//! C16: wire codecs (NodeInfo, InitMsg, RotationMessage) - round trips and totality on the real code.
+//!
+//! `codec roundtrip <quick|thorough> <trace.ndjson>`: generated messages -> real encoder -> unknown parts spliced at
+//!     part boundaries (handshake datagrams re-signed) -> real decoder; one *abstract* event per decode.  The harness
+//!     only reports structure (families, counts, tags) and byte-equality look-ups ("decoded address j is byte-equal to
+//!     the k-th IPv6 address that was put in"); which entries must survive, in which order, is decided by TLC with
+//!     `Normalise*` / `Decode*` of Codec.tla.
+//! `codec total <quick|thorough> <trace.ndjson>`: every truncation, single-byte substitutions at tag / length / count
+//!     positions, random strings, each also followed by 64 KiB of stale bytes; decoders run under `guarded`; one event
+//!     per family plus one per flagged member.
+use super::util::*;
+use crate::crypto::verif_export::{InitMsg, RotationMessage, RotationState};
+use crate::crypto::{Algorithms, EcdhPublicKey};
+use crate::messages::{NodeInfo, PeerInfo};
+use crate::types::{Address, NodeId, Range};
+use crate::util::MsgBuffer;
+use rand::{rngs::StdRng, seq::SliceRandom, Rng, RngCore};
+use ring::aead::{AES_128_GCM, AES_256_GCM, CHACHA20_POLY1305};
+use ring::agreement::X25519;
+use ring::signature::{Ed25519KeyPair, KeyPair};
 use serde_json::{json, Value};
+use smallvec::SmallVec;
+use std::io::Cursor;
+use std::net::{Ipv4Addr, Ipv6Addr, SocketAddr, SocketAddrV4, SocketAddrV6};
+use std::sync::atomic::{AtomicU64, Ordering};
+use std::time::Instant;
 
-pub fn run(_args: &[String]) -> Value {
-    json!({"error": "not implemented"})
+pub fn run(args: &[String]) -> Value {
+    let a = |i: usize| args.get(i).map(|s| s.as_str()).unwrap_or("");
+    let thorough = a(1) == "thorough";
+    match a(0) {
+        "roundtrip" => roundtrip(thorough, a(2)),
+        "total" => total(thorough, a(2)),
+        "decode" => decode_one(a(1), a(2)),
+        "observe" => observe(),
+        _ => json!({"error": "usage: codec roundtrip|total <quick|thorough> <trace>"}),
+    }
+}
+
+// ------------------------------------------------------------------------------------------------ byte-level helpers
+
+/// One part of a tag-length-value sequence: `pos` = index of the tag byte, body = b[pos + 3 .. pos + 3 + len].
+#[derive(Clone, Debug)]
+struct Tlv {
+    pos: usize,
+    tag: u8,
+    len: usize,
+}
+
+/// Walks a well-formed TLV sequence from `start`; returns the parts and the index of the end marker.
+fn walk(b: &[u8], start: usize) -> (Vec<Tlv>, usize) {
+    let mut parts = vec![];
+    let mut p = start;
+    loop {
+        assert!(p < b.len(), "harness: encoding without end marker");
+        if b[p] == 0 {
+            return (parts, p);
+        }
+        let len = ((b[p + 1] as usize) << 8) | b[p + 2] as usize;
+        parts.push(Tlv { pos: p, tag: b[p], len });
+        p += 3 + len;
+    }
+}
+
+#[derive(Clone, Debug)]
+struct WPart {
+    tag: u8,
+    body: Vec<u8>,
+}
+
+fn wparts(b: &[u8], start: usize) -> (Vec<WPart>, usize) {
+    let (ps, end) = walk(b, start);
+    (ps.iter().map(|p| WPart { tag: p.tag, body: b[p.pos + 3..p.pos + 3 + p.len].to_vec() }).collect(), end)
+}
+
+fn put_parts(out: &mut Vec<u8>, parts: &[WPart]) {
+    for p in parts {
+        out.push(p.tag);
+        out.push((p.body.len() >> 8) as u8);
+        out.push(p.body.len() as u8);
+        out.extend_from_slice(&p.body);
+    }
+    out.push(0);
+}
+
+/// Insertions `(at, part)`: `at` = index of the original part the new one is put in front of (number of parts =
+/// directly before the end marker).  Sorted by `at`; equal positions keep their order.
+fn insert_parts(parts: &[WPart], ins: &[(usize, WPart)]) -> Vec<WPart> {
+    let mut out = vec![];
+    for i in 0..=parts.len() {
+        for (at, p) in ins {
+            if *at == i {
+                out.push(p.clone());
+            }
+        }
+        if i < parts.len() {
+            out.push(parts[i].clone());
+        }
+    }
+    out
+}
+
+fn unknown_part(rng: &mut StdRng, known_max: u8) -> WPart {
+    let tag = rng.gen_range(known_max + 1..=255u8);
+    let len = match rng.gen_range(0..60) {
+        0 => 0,
+        1 => 300,
+        2 => rng.gen_range(1000..60000),
+        _ => rng.gen_range(0..40),
+    };
+    let mut body = vec![0u8; len];
+    rng.fill_bytes(&mut body);
+    // now and then a body that looks like a known part (a node id, a flags byte with counts)
+    if len == 16 || rng.gen_range(0..10) == 0 {
+        for x in body.iter_mut().take(3) {
+            *x = [0xbf, 0x09, 0x01][rng.gen_range(0..3)];
+        }
+    }
+    WPart { tag, body }
+}
+
+fn fam_of(a: &SocketAddr) -> u64 {
+    match a {
+        SocketAddr::V4(_) => 4,
+        SocketAddr::V6(_) => 6,
+    }
+}
+
+fn tags_of(parts: &[WPart]) -> Vec<u64> {
+    let mut t: Vec<u64> = parts.iter().map(|p| p.tag as u64).collect();
+    t.push(0);
+    t
+}
+
+// ------------------------------------------------------------------------------------------------ NodeInfo round trips
+
+fn gen_addrs(rng: &mut StdRng, n4: usize, n6: usize, pattern: u32) -> Vec<SocketAddr> {
+    let mut fams: Vec<u8> = vec![];
+    match pattern % 4 {
+        0 => {
+            fams.extend(std::iter::repeat(4).take(n4));
+            fams.extend(std::iter::repeat(6).take(n6));
+        }
+        1 => {
+            fams.extend(std::iter::repeat(6).take(n6));
+            fams.extend(std::iter::repeat(4).take(n4));
+        }
+        _ => {
+            fams.extend(std::iter::repeat(4).take(n4));
+            fams.extend(std::iter::repeat(6).take(n6));
+            fams.shuffle(rng);
+        }
+    }
+    let mut out: Vec<SocketAddr> = vec![];
+    for f in fams {
+        loop {
+            let a = if f == 4 {
+                SocketAddr::V4(SocketAddrV4::new(Ipv4Addr::from(rng.gen::<u32>()), rng.gen()))
+            } else {
+                SocketAddr::V6(SocketAddrV6::new(Ipv6Addr::from(rng.gen::<u128>()), rng.gen(), 0, 0))
+            };
+            if !out.contains(&a) {
+                out.push(a);
+                break;
+            }
+        }
+    }
+    out
+}
+
+fn gen_claim(rng: &mut StdRng, len: u8, prefix: u8) -> Range {
+    let mut data = [0u8; 16];
+    rng.fill_bytes(&mut data[..len as usize]);
+    Range { base: Address { data, len }, prefix_len: prefix }
+}
+
+fn gen_id(rng: &mut StdRng) -> NodeId {
+    let mut id = [0u8; 16];
+    rng.fill_bytes(&mut id);
+    id
+}
+
+struct NiShape {
+    peers: Vec<(bool, usize, usize)>,
+    claims: Vec<(u8, u8)>,
+    timeout: bool,
+    own: (usize, usize),
+}
+
+fn build_ni(rng: &mut StdRng, s: &NiShape) -> NodeInfo {
+    let mut info = NodeInfo {
+        node_id: gen_id(rng),
+        peers: SmallVec::new(),
+        claims: SmallVec::new(),
+        peer_timeout: if s.timeout { Some(rng.gen()) } else { None },
+        addrs: SmallVec::new(),
+    };
+    for (has_id, n4, n6) in &s.peers {
+        let pat = rng.gen();
+        let addrs = gen_addrs(rng, *n4, *n6, pat);
+        info.peers.push(PeerInfo { node_id: if *has_id { Some(gen_id(rng)) } else { None }, addrs: addrs.into_iter().collect() });
+    }
+    for (l, p) in &s.claims {
+        info.claims.push(gen_claim(rng, *l, *p));
+    }
+    let pat = rng.gen();
+    info.addrs = gen_addrs(rng, s.own.0, s.own.1, pat).into_iter().collect();
+    info
+}
+
+/// fam / idx description of a decoded address list relative to the list that went in.
+fn describe_addrs(orig: &[SocketAddr], got: &[SocketAddr]) -> (Vec<u64>, Vec<u64>) {
+    let fam: Vec<u64> = got.iter().map(fam_of).collect();
+    let idx: Vec<u64> = got
+        .iter()
+        .map(|g| {
+            orig.iter().filter(|o| fam_of(o) == fam_of(g)).position(|o| o == g).map(|p| p as u64 + 1).unwrap_or(0)
+        })
+        .collect();
+    (fam, idx)
+}
+
+fn ni_got_empty() -> Value {
+    json!({"id_ok": false, "peers": [], "claims": [], "claims_ok": false, "timeout": false, "timeout_ok": false,
+           "addrs": {"fam": [], "idx": []}})
+}
+
+fn ni_got(orig: &NodeInfo, got: &NodeInfo) -> Value {
+    let peers: Vec<Value> = got
+        .peers
+        .iter()
+        .enumerate()
+        .map(|(i, p)| {
+            let o = orig.peers.get(i);
+            let (fam, idx) = describe_addrs(o.map(|o| &o.addrs[..]).unwrap_or(&[]), &p.addrs);
+            let id_ok = match o {
+                Some(o) => o.node_id == p.node_id,
+                None => false,
+            };
+            json!({"id": p.node_id.is_some(), "id_ok": id_ok, "fam": fam, "idx": idx})
+        })
+        .collect();
+    let claims: Vec<Value> = got.claims.iter().map(|c| json!([c.base.len, c.prefix_len])).collect();
+    // byte equality of the claims position by position (lengths and prefixes are also judged by TLC)
+    let claims_ok = got.claims.len() == orig.claims.len() && got.claims.iter().zip(orig.claims.iter()).all(|(a, b)| a == b);
+    let (fam, idx) = describe_addrs(&orig.addrs, &got.addrs);
+    json!({"id_ok": got.node_id == orig.node_id, "peers": peers, "claims": claims, "claims_ok": claims_ok,
+           "timeout": got.peer_timeout.is_some(), "timeout_ok": got.peer_timeout == orig.peer_timeout,
+           "addrs": {"fam": fam, "idx": idx}})
+}
+
+fn ni_event(case: u64, src: &str, orig: &NodeInfo, ins: &[(usize, WPart)], tags: &[u64], res: &str, note: &str, got: Value) -> Value {
+    let peers: Vec<Value> =
+        orig.peers.iter().map(|p| json!({"id": p.node_id.is_some(), "fam": p.addrs.iter().map(fam_of).collect::<Vec<_>>()})).collect();
+    let claims: Vec<Value> = orig.claims.iter().map(|c| json!([c.base.len, c.prefix_len])).collect();
+    let ins_j: Vec<Value> = ins.iter().map(|(at, p)| json!({"at": at, "tag": p.tag, "len": p.body.len()})).collect();
+    json!({"op": "nodeinfo", "case": case, "src": src, "peers": peers, "claims": claims, "timeout": orig.peer_timeout.is_some(),
+           "addrs": orig.addrs.iter().map(fam_of).collect::<Vec<_>>(), "ins": ins_j, "tags": tags,
+           "res": res, "note": note, "got": got})
+}
+
+fn encode_ni(info: &NodeInfo) -> Result<Vec<u8>, String> {
+    guarded(|| {
+        let mut b = MsgBuffer::new(0);
+        info.encode(&mut b);
+        b.message().to_vec()
+    })
+}
+
+fn decode_ni(bytes: &[u8]) -> Result<Result<NodeInfo, String>, String> {
+    guarded(|| NodeInfo::decode(Cursor::new(bytes)).map_err(|e| e.to_string()))
+}
+
+/// Encodes, splices, decodes, logs.  Returns the number of decodes.
+fn ni_roundtrip(t: &mut Trace, rng: &mut StdRng, case: u64, src: &str, info: &NodeInfo, mode: u32) -> u64 {
+    let enc = match encode_ni(info) {
+        Ok(e) => e,
+        Err(m) => {
+            t.ev(ni_event(case, src, info, &[], &[], "panic", &format!("encoder: {}", m), ni_got_empty()));
+            return 1;
+        }
+    };
+    let (parts, _) = wparts(&enc, 0);
+    let n = parts.len();
+    let mut variants: Vec<Vec<(usize, WPart)>> = vec![vec![]];
+    let single = |rng: &mut StdRng, at: usize| vec![(at, unknown_part(rng, 5))];
+    let double = |rng: &mut StdRng, a: usize, b: usize| {
+        let (a, b) = if a <= b { (a, b) } else { (b, a) };
+        vec![(a, unknown_part(rng, 5)), (b, unknown_part(rng, 5))]
+    };
+    match mode {
+        // every position once, the same position twice, two random pairs
+        0 => {
+            for at in 0..=n {
+                variants.push(single(rng, at));
+            }
+            let at = rng.gen_range(0..=n);
+            variants.push(double(rng, at, at));
+            for _ in 0..2 {
+                let (a, b) = (rng.gen_range(0..=n), rng.gen_range(0..=n));
+                variants.push(double(rng, a, b));
+            }
+        }
+        // every position once
+        1 => {
+            for at in 0..=n {
+                variants.push(single(rng, at));
+            }
+        }
+        // one random single, one random pair
+        _ => {
+            let at = rng.gen_range(0..=n);
+            variants.push(single(rng, at));
+            let (a, b) = (rng.gen_range(0..=n), rng.gen_range(0..=n));
+            variants.push(double(rng, a, b));
+        }
+    }
+    let mut decodes = 0;
+    for ins in &variants {
+        let bytes = if ins.is_empty() {
+            enc.clone() // exactly what the encoder produced
+        } else {
+            let mut b = vec![];
+            put_parts(&mut b, &insert_parts(&parts, ins));
+            b
+        };
+        let tags = tags_of(&insert_parts(&parts, ins));
+        decodes += 1;
+        let ev = match decode_ni(&bytes) {
+            Ok(Ok(got)) => ni_event(case, src, info, ins, &tags, "ok", "", ni_got(info, &got)),
+            Ok(Err(e)) => ni_event(case, src, info, ins, &tags, "err", &e, ni_got_empty()),
+            Err(m) => ni_event(case, src, info, ins, &tags, "panic", &m, ni_got_empty()),
+        };
+        t.ev(ev);
+    }
+    decodes
+}
+
+fn ni_roundtrips(t: &mut Trace, thorough: bool) -> (u64, u64) {
+    let mut rng = rng(1601);
+    let (mut cases, mut decodes) = (0u64, 0u64);
+    // (1) 0..20 peers; the per-family counts walk through all pairs (0..9) x (0..9)
+    let mut k = 0usize;
+    for rep in 0..(if thorough { 4 } else { 1 }) {
+        for p in 0..=20usize {
+            let mut peers = vec![];
+            for _ in 0..p {
+                peers.push((rng.gen_bool(0.6), k % 10, (k / 10 + rep * 3) % 10));
+                k += 1;
+            }
+            let nclaims = rng.gen_range(0..4);
+            let s = NiShape {
+                peers,
+                claims: (0..nclaims).map(|_| (rng.gen_range(0..=16), rng.gen())).collect(),
+                timeout: (p + rep) % 2 == 0,
+                own: (p % 10, (p * 7 + rep) % 10),
+            };
+            let info = build_ni(&mut rng, &s);
+            cases += 1;
+            decodes += ni_roundtrip(t, &mut rng, cases, "peer-sweep", &info, 0);
+        }
+    }
+    // (2) claims: every address length 0..16 with every prefix 0..255
+    for len in 0..=16u8 {
+        for chunk in 0..4u32 {
+            let s = NiShape {
+                peers: vec![(chunk % 2 == 0, (len as usize) % 10, chunk as usize)],
+                claims: (0..64u32).map(|i| (len, (chunk * 64 + i) as u8)).collect(),
+                timeout: len % 2 == 0,
+                own: (1, 1),
+            };
+            let info = build_ni(&mut rng, &s);
+            cases += 1;
+            decodes += ni_roundtrip(t, &mut rng, cases, "claim-sweep", &info, 1);
+        }
+    }
+    // (3) the node's own address list: all pairs of counts
+    for n4 in 0..=9usize {
+        for n6 in 0..=9usize {
+            let s = NiShape {
+                peers: if (n4 + n6) % 3 == 0 { vec![] } else { vec![(true, n6, n4)] },
+                claims: vec![(4, 24)],
+                timeout: (n4 + n6) % 2 == 0,
+                own: (n4, n6),
+            };
+            let info = build_ni(&mut rng, &s);
+            cases += 1;
+            decodes += ni_roundtrip(t, &mut rng, cases, "own-sweep", &info, 2);
+        }
+    }
+    // (4) random messages
+    let nrand = if thorough { 2500 } else { 90 };
+    for i in 0..nrand {
+        let np = if rng.gen_bool(0.15) { 20 } else { rng.gen_range(0..=20) };
+        let nclaims = rng.gen_range(0..9);
+        let s = NiShape {
+            peers: (0..np).map(|_| (rng.gen_bool(0.5), rng.gen_range(0..=9), rng.gen_range(0..=9))).collect(),
+            claims: (0..nclaims).map(|_| (rng.gen_range(0..=16), rng.gen())).collect(),
+            timeout: rng.gen(),
+            own: (rng.gen_range(0..=9), rng.gen_range(0..=9)),
+        };
+        let info = build_ni(&mut rng, &s);
+        cases += 1;
+        decodes += ni_roundtrip(t, &mut rng, cases, "random", &info, if i % 3 == 0 { 0 } else { 2 });
+    }
+    (cases, decodes)
+}
+
+// ------------------------------------------------------------------------------------------------ InitMsg round trips
+
+const IM_STAGE: u8 = 1;
+const IM_HASH: u8 = 2;
+const IM_ECDH: u8 = 3;
+const IM_ALGOS: u8 = 4;
+const IM_PAYLOAD: u8 = 5;
+
+struct Keys {
+    pair: Ed25519KeyPair,
+    trusted: Vec<[u8; 32]>,
+}
+
+fn make_keys(rng: &mut StdRng) -> Keys {
+    let mut mk = |rng: &mut StdRng| {
+        let mut seed = [0u8; 32];
+        rng.fill_bytes(&mut seed);
+        Ed25519KeyPair::from_seed_unchecked(&seed).expect("key pair")
+    };
+    let pair = mk(rng);
+    let mut trusted = vec![];
+    for _ in 0..2 {
+        let o = mk(rng);
+        let mut pk = [0u8; 32];
+        pk.copy_from_slice(o.public_key().as_ref());
+        trusted.push(pk);
+    }
+    let mut pk = [0u8; 32];
+    pk.copy_from_slice(pair.public_key().as_ref());
+    trusted.push(pk);
+    Keys { pair, trusted }
+}
+
+fn algo_of(id: u8) -> &'static ring::aead::Algorithm {
+    match id {
+        1 => &AES_128_GCM,
+        2 => &AES_256_GCM,
+        _ => &CHACHA20_POLY1305,
+    }
+}
+
+fn id_of(a: &'static ring::aead::Algorithm) -> u64 {
+    if a == &AES_128_GCM {
+        1
+    } else if a == &AES_256_GCM {
+        2
+    } else if a == &CHACHA20_POLY1305 {
+        3
+    } else {
+        99
+    }
+}
+
+fn ecdh_key(bytes: &[u8]) -> EcdhPublicKey {
+    EcdhPublicKey::new(&X25519, SmallVec::from_slice(bytes))
+}
+
+fn payload_buf(bytes: &[u8]) -> MsgBuffer {
+    let mut p = MsgBuffer::new(0);
+    p.clone_from(bytes);
+    p
+}
+
+/// Datagram = 8-byte key selector + parts + end marker + signature over everything before the signature length.
+fn assemble_im(prefix: &[u8], parts: &[WPart], key: &Ed25519KeyPair) -> Vec<u8> {
+    let mut b = prefix[..8].to_vec();
+    put_parts(&mut b, parts);
+    let sig = key.sign(&b);
+    b.push(sig.as_ref().len() as u8);
+    b.extend_from_slice(sig.as_ref());
+    b
+}
+
+fn read_im(bytes: &[u8], keys: &Keys) -> Result<Result<InitMsg, String>, String> {
+    guarded(|| InitMsg::verif_read_from(bytes, &keys.trusted).map(|(m, _)| m).map_err(|e| e.to_string()))
+}
+
+fn last_body<'a>(parts: &'a [WPart], tag: u8) -> Option<&'a [u8]> {
+    parts.iter().rev().find(|p| p.tag == tag).map(|p| &p.body[..])
+}
+
+fn algo_entries(body: &[u8]) -> Vec<(u8, u32)> {
+    body.chunks_exact(5).map(|c| (c[0], u32::from_be_bytes([c[1], c[2], c[3], c[4]]))).collect()
+}
+
+fn im_got_empty() -> Value {
+    json!({"stage": 0, "has_ecdh": false, "has_algos": false, "has_payload": false, "unenc": false, "algos": [], "idx": []})
+}
+
+/// Describes a decoded handshake message relative to the parts that were on the wire; returns (got, content_ok).
+fn im_got(parts: &[WPart], m: &InitMsg) -> (Value, bool) {
+    let (stage, hash, ecdh, algos, payload): (u64, &[u8; 20], Option<&EcdhPublicKey>, Option<&Algorithms>, Option<&MsgBuffer>) = match m {
+        InitMsg::Ping { salted_node_id_hash, ecdh_public_key, algorithms } => (1, salted_node_id_hash, Some(ecdh_public_key), Some(algorithms), None),
+        InitMsg::Pong { salted_node_id_hash, ecdh_public_key, algorithms, encrypted_payload } => {
+            (2, salted_node_id_hash, Some(ecdh_public_key), Some(algorithms), Some(encrypted_payload))
+        }
+        InitMsg::Peng { salted_node_id_hash, encrypted_payload } => (3, salted_node_id_hash, None, None, Some(encrypted_payload)),
+    };
+    let mut content_ok = last_body(parts, IM_HASH) == Some(&hash[..]);
+    if let Some(k) = ecdh {
+        content_ok &= last_body(parts, IM_ECDH) == Some(&k.bytes()[..]);
+    }
+    if let Some(p) = payload {
+        content_ok &= last_body(parts, IM_PAYLOAD) == Some(p.message());
+    }
+    let wire = last_body(parts, IM_ALGOS).map(algo_entries).unwrap_or_default();
+    let (mut ids, mut idx) = (vec![], vec![]);
+    if let Some(a) = algos {
+        for (algo, speed) in &a.algorithm_speeds {
+            ids.push(id_of(algo));
+            // the wire entry this one stems from: the speeds put on the wire are pairwise different
+            idx.push(wire.iter().position(|(_, s)| *s == speed.to_bits()).map(|p| p as u64 + 1).unwrap_or(0));
+        }
+    }
+    (
+        json!({"stage": stage, "has_ecdh": ecdh.is_some(), "has_algos": algos.is_some(), "has_payload": payload.is_some(),
+               "unenc": algos.map(|a| a.allow_unencrypted).unwrap_or(false), "algos": ids, "idx": idx}),
+        content_ok,
+    )
+}
+
+fn im_event(case: u64, src: &str, parts: &[WPart], ins: usize, res: &str, note: &str, got: Value, content_ok: bool) -> Value {
+    let stage = match last_body(parts, IM_STAGE) {
+        Some(b) if b.len() == 1 => b[0] as u64,
+        _ => 0,
+    };
+    let algos: Vec<u64> = last_body(parts, IM_ALGOS).map(algo_entries).unwrap_or_default().iter().map(|(i, _)| *i as u64).collect();
+    json!({"op": "init", "case": case, "src": src, "stage": stage, "tags": tags_of(parts), "algos": algos, "unknown": ins,
+           "res": res, "note": note, "got": got, "content_ok": content_ok})
+}
+
+fn im_feed(t: &mut Trace, case: u64, src: &str, bytes: &[u8], parts: &[WPart], ins: usize, keys: &Keys) {
+    let ev = match read_im(bytes, keys) {
+        Ok(Ok(m)) => {
+            let (got, ok) = im_got(parts, &m);
+            im_event(case, src, parts, ins, "ok", "", got, ok)
+        }
+        Ok(Err(e)) => im_event(case, src, parts, ins, "err", &e, im_got_empty(), false),
+        Err(m) => im_event(case, src, parts, ins, "panic", &m, im_got_empty(), false),
+    };
+    t.ev(ev);
+}
+
+fn distinct_speed(rng: &mut StdRng, used: &mut Vec<u32>) -> f32 {
+    loop {
+        let s: f32 = rng.gen_range(1.0..5000.0);
+        if !used.contains(&s.to_bits()) && s.to_bits() != f32::INFINITY.to_bits() {
+            used.push(s.to_bits());
+            return s;
+        }
+    }
+}
+
+fn gen_im(rng: &mut StdRng, stage: u8, ids: &[u8], unenc: bool, keylen: usize, paylen: usize) -> InitMsg {
+    let mut hash = [0u8; 20];
+    rng.fill_bytes(&mut hash);
+    let mut key = vec![0u8; keylen];
+    rng.fill_bytes(&mut key);
+    let mut pay = vec![0u8; paylen];
+    rng.fill_bytes(&mut pay);
+    let mut used = vec![];
+    let algorithms = Algorithms {
+        algorithm_speeds: ids.iter().map(|i| (algo_of(*i), distinct_speed(rng, &mut used))).collect(),
+        allow_unencrypted: unenc,
+    };
+    match stage {
+        1 => InitMsg::Ping { salted_node_id_hash: hash, ecdh_public_key: ecdh_key(&key), algorithms },
+        2 => InitMsg::Pong { salted_node_id_hash: hash, ecdh_public_key: ecdh_key(&key), algorithms, encrypted_payload: payload_buf(&pay) },
+        _ => InitMsg::Peng { salted_node_id_hash: hash, encrypted_payload: payload_buf(&pay) },
+    }
+}
+
+fn im_roundtrips(t: &mut Trace, thorough: bool) -> (u64, u64) {
+    let mut rng = rng(1602);
+    let keys = make_keys(&mut rng);
+    let (mut cases, mut decodes) = (0u64, 0u64);
+    // ordered selections of the three algorithms
+    let mut lists: Vec<Vec<u8>> = vec![vec![]];
+    for a in 1..=3u8 {
+        lists.push(vec![a]);
+        for b in 1..=3u8 {
+            if b != a {
+                lists.push(vec![a, b]);
+                for c in 1..=3u8 {
+                    if c != a && c != b {
+                        lists.push(vec![a, b, c]);
+                    }
+                }
+            }
+        }
+    }
+    let keylens = [32usize, 0, 1, 31, 33, 96, 200];
+    let paylens = [0usize, 1, 48, 1000, 60000];
+    let mut buf = vec![0u8; 70000];
+    let mut n = 0usize;
+    let reps = if thorough { 6 } else { 1 };
+    for rep in 0..reps {
+        for stage in 1..=3u8 {
+            for (li, ids) in lists.iter().enumerate() {
+                if stage == 3 && li > 1 {
+                    continue;
+                }
+                for unenc in [false, true] {
+                    n += 1;
+                    let keylen = if rep == 0 && n % 3 != 0 { 32 } else { keylens[n % keylens.len()] };
+                    let msg = gen_im(&mut rng, stage, ids, unenc, keylen, paylens[(n + rep) % paylens.len()]);
+                    cases += 1;
+                    let len = match guarded(|| msg.verif_write_to(&mut buf, &keys.pair)) {
+                        Ok(Ok(l)) => l,
+                        Ok(Err(e)) => panic!("harness: write buffer too small: {}", e),
+                        Err(m) => {
+                            t.ev(im_event(cases, "encoder", &[], 0, "panic", &format!("encoder: {}", m), im_got_empty(), false));
+                            continue;
+                        }
+                    };
+                    let bytes = buf[..len].to_vec();
+                    let (parts, _) = wparts(&bytes, 8);
+                    // (a) exactly what the encoder wrote
+                    im_feed(t, cases, "encoder", &bytes, &parts, 0, &keys);
+                    decodes += 1;
+                    // (b) unknown parts at every boundary (re-signed), a pair at one boundary, a random pair
+                    let np = parts.len();
+                    let mut variants: Vec<Vec<(usize, WPart)>> = (0..=np).map(|at| vec![(at, unknown_part(&mut rng, 5))]).collect();
+                    let at = rng.gen_range(0..=np);
+                    variants.push(vec![(at, unknown_part(&mut rng, 5)), (at, unknown_part(&mut rng, 5))]);
+                    let (a, b) = (rng.gen_range(0..=np), rng.gen_range(0..=np));
+                    variants.push(vec![(a.min(b), unknown_part(&mut rng, 5)), (a.max(b), unknown_part(&mut rng, 5))]);
+                    if n % 4 != 1 && !thorough {
+                        variants.truncate(0);
+                        let at = rng.gen_range(0..=np);
+                        variants.push(vec![(at, unknown_part(&mut rng, 5))]);
+                    }
+                    for ins in &variants {
+                        let p2 = insert_parts(&parts, ins);
+                        let b2 = assemble_im(&bytes, &p2, &keys.pair);
+                        im_feed(t, cases, "spliced", &b2, &p2, ins.len(), &keys);
+                        decodes += 1;
+                    }
+                    // (c) wire-level variants a newer or different encoder could send (all re-signed)
+                    if stage != 3 {
+                        let ai = parts.iter().position(|p| p.tag == IM_ALGOS).expect("algorithms part");
+                        let base = algo_entries(&parts[ai].body);
+                        // an unknown algorithm id at every position of the list; flag entries in other places
+                        for pos in 0..=base.len() {
+                            for id in [4u8, 9, 0x7f, 0xff, 0] {
+                                if !thorough && (pos + id as usize + n) % 3 != 0 {
+                                    continue;
+                                }
+                                let mut ents = base.clone();
+                                let mut used: Vec<u32> = ents.iter().map(|e| e.1).collect();
+                                ents.insert(pos, (id, distinct_speed(&mut rng, &mut used).to_bits()));
+                                let mut p2 = parts.clone();
+                                p2[ai].body = ents.iter().flat_map(|(i, s)| std::iter::once(*i).chain(s.to_be_bytes())).collect();
+                                let b2 = assemble_im(&bytes, &p2, &keys.pair);
+                                im_feed(t, cases, "algo-variant", &b2, &p2, 0, &keys);
+                                decodes += 1;
+                            }
+                        }
+                    }
+                    // parts in another order; one part left out (what is mandatory is decided by the specification)
+                    if n % 2 == 0 || thorough {
+                        let mut p2 = parts.clone();
+                        p2.shuffle(&mut rng);
+                        let b2 = assemble_im(&bytes, &p2, &keys.pair);
+                        im_feed(t, cases, "reordered", &b2, &p2, 0, &keys);
+                        decodes += 1;
+                        let drop = rng.gen_range(0..parts.len());
+                        let mut p3 = parts.clone();
+                        p3.remove(drop);
+                        let b3 = assemble_im(&bytes, &p3, &keys.pair);
+                        im_feed(t, cases, "part-missing", &b3, &p3, 0, &keys);
+                        decodes += 1;
+                    }
+                }
+            }
+        }
+    }
+    (cases, decodes)
+}
+
+// ------------------------------------------------------------------------------------------------ RotationMessage
+
+fn rot_bytes(rng: &mut StdRng, id: u64, plen: usize, clen: usize) -> Vec<u8> {
+    let mut b = id.to_be_bytes().to_vec();
+    b.push(plen as u8);
+    let mut k = vec![0u8; plen];
+    rng.fill_bytes(&mut k);
+    b.extend_from_slice(&k);
+    b.push(clen as u8);
+    let mut k = vec![0u8; clen];
+    rng.fill_bytes(&mut k);
+    b.extend_from_slice(&k);
+    b
+}
+
+/// The fields of RotationMessage are private: the observable round trip is bytes -> read_from -> write_to -> bytes.
+fn rot_event(t: &mut Trace, case: u64, src: &str, bytes: &[u8]) {
+    let plen = bytes[8] as usize;
+    let clen = bytes[9 + plen] as usize;
+    let r = guarded(|| {
+        RotationMessage::read_from(Cursor::new(bytes)).map_err(|e| e.to_string()).map(|m| {
+            let mut out = vec![];
+            m.write_to(&mut out).expect("write to a vector");
+            out
+        })
+    });
+    let ev = match r {
+        Ok(Ok(out)) => {
+            // structure of what the encoder wrote, read off its bytes
+            let re_plen = out.get(8).map(|x| *x as i64).unwrap_or(-1);
+            let re_clen = if re_plen >= 0 { out.get(9 + re_plen as usize).map(|x| *x as i64).unwrap_or(-1) } else { -1 };
+            json!({"op": "rotation", "case": case, "src": src, "plen": plen, "clen": clen, "res": "ok", "note": "",
+                   "re_len": out.len(), "re_plen": re_plen, "re_clen": re_clen, "content_ok": out == bytes})
+        }
+        Ok(Err(e)) => json!({"op": "rotation", "case": case, "src": src, "plen": plen, "clen": clen, "res": "err", "note": e,
+                             "re_len": 0, "re_plen": 0, "re_clen": 0, "content_ok": false}),
+        Err(m) => json!({"op": "rotation", "case": case, "src": src, "plen": plen, "clen": clen, "res": "panic", "note": m,
+                         "re_len": 0, "re_plen": 0, "re_clen": 0, "content_ok": false}),
+    };
+    t.ev(ev);
+}
+
+/// Genuine rotation messages produced by two RotationState objects talking to each other.
+fn genuine_rotation_messages(n: usize) -> Vec<Vec<u8>> {
+    let mut out = MsgBuffer::new(8);
+    let mut a = RotationState::new(true, &mut out);
+    let mut msgs = vec![out.message().to_vec()];
+    out.clear();
+    let mut b = RotationState::new(false, &mut out);
+    let _ = b.handle_message(&msgs[0]);
+    let mut turn = 0;
+    let mut guard = 0;
+    while msgs.len() < n && guard < 20 * n {
+        guard += 1;
+        let (x, y) = if turn % 2 == 0 { (&mut b, &mut a) } else { (&mut a, &mut b) };
+        x.cycle(&mut out);
+        if !out.is_empty() {
+            let m = out.message().to_vec();
+            out.clear();
+            let _ = y.handle_message(&m);
+            msgs.push(m);
+        }
+        turn += 1;
+    }
+    msgs
+}
+
+fn rot_roundtrips(t: &mut Trace, thorough: bool) -> (u64, u64) {
+    let mut rng = rng(1603);
+    let mut cases = 0u64;
+    for plen in 0..=255usize {
+        for clen in [0usize, 1, 32, 255] {
+            cases += 1;
+            let id = if cases % 5 == 0 { u64::MAX - cases } else { rng.gen() };
+            let b = rot_bytes(&mut rng, id, plen, clen);
+            rot_event(t, cases, "built", &b);
+        }
+    }
+    for _ in 0..(if thorough { 4000 } else { 200 }) {
+        cases += 1;
+        let (id, pl, cl) = (rng.gen(), rng.gen_range(0..=255), rng.gen_range(0..=255));
+        let b = rot_bytes(&mut rng, id, pl, cl);
+        rot_event(t, cases, "built", &b);
+    }
+    for m in genuine_rotation_messages(if thorough { 60 } else { 12 }) {
+        cases += 1;
+        rot_event(t, cases, "state", &m);
+    }
+    (cases, cases)
+}
+
+fn roundtrip(thorough: bool, path: &str) -> Value {
+    let mut t = Trace::create(path);
+    let (c1, d1) = ni_roundtrips(&mut t, thorough);
+    let (c2, d2) = im_roundtrips(&mut t, thorough);
+    let (c3, d3) = rot_roundtrips(&mut t, thorough);
+    let events = t.finish();
+    json!({"runs": c1 + c2 + c3, "steps": d1 + d2 + d3, "events": events,
+           "nodeinfo": {"messages": c1, "decodes": d1}, "init": {"messages": c2, "decodes": d2}, "rotation": {"messages": c3, "decodes": d3}})
+}
+
+// ------------------------------------------------------------------------------------------------ totality
+
+const SUBST: [u8; 13] = [0, 1, 2, 3, 4, 5, 6, 7, 8, 9, 0x7f, 0x80, 0xff];
+const TAIL_LEN: usize = 65536;
+const CLASSES: [&str; 5] = ["truncation", "substitution", "random", "structured", "stale-tail"];
+const SLOW_US: u64 = 1_000_000;
+
+static PROGRESS: AtomicU64 = AtomicU64::new(0);
+static CURRENT: AtomicU64 = AtomicU64::new(0); // codec * 1_000_000_000_000 + class * 1_000_000_000 + member index
+
+struct Fam {
+    members: u64,
+    ok: u64,
+    err: u64,
+    panics: u64,
+    slow: u64,
+    max_us: u64,
+    first_bad: String,
+}
+
+struct Totality<'a> {
+    codec: &'static str,
+    codec_no: u64,
+    dec: &'a dyn Fn(&[u8]) -> bool,
+    fams: Vec<Fam>,
+    tails: Vec<(&'static str, Vec<u8>)>,
+    earlier: Vec<u8>, // a longer valid message that was in the receive buffer before
+    scratch: Vec<u8>,
+    flagged: u64,
+}
+
+impl<'a> Totality<'a> {
+    fn new(codec: &'static str, codec_no: u64, dec: &'a dyn Fn(&[u8]) -> bool, earlier: Vec<u8>, rng: &mut StdRng) -> Self {
+        let mut random = vec![0u8; TAIL_LEN];
+        rng.fill_bytes(&mut random);
+        let mut repeated = vec![];
+        while repeated.len() < TAIL_LEN {
+            repeated.extend_from_slice(&earlier);
+        }
+        repeated.truncate(TAIL_LEN);
+        let tails = vec![("zeros", vec![0u8; TAIL_LEN]), ("ones", vec![0xffu8; TAIL_LEN]), ("random", random), ("messages", repeated)];
+        let fams = CLASSES.iter().map(|_| Fam { members: 0, ok: 0, err: 0, panics: 0, slow: 0, max_us: 0, first_bad: String::new() }).collect();
+        Totality { codec, codec_no, dec, fams, tails, earlier, scratch: Vec::with_capacity(TAIL_LEN + 70000), flagged: 0 }
+    }
+
+    fn one(&mut self, t: &mut Trace, class: usize, input: &[u8], tail: &str, detail: &Value) {
+        let f = &mut self.fams[class];
+        CURRENT.store(self.codec_no * 1_000_000_000_000 + class as u64 * 1_000_000_000 + f.members, Ordering::Relaxed);
+        PROGRESS.fetch_add(1, Ordering::Relaxed);
+        let dec = self.dec;
+        let t0 = Instant::now();
+        let r = guarded(|| dec(input));
+        let mut us = t0.elapsed().as_micros() as u64;
+        // a slow decode is measured again (twice) before it is believed: the machine may have been busy
+        let mut again = 0;
+        while us > SLOW_US && again < 2 && r.is_ok() {
+            again += 1;
+            let t1 = Instant::now();
+            let _ = guarded(|| dec(input));
+            us = us.min(t1.elapsed().as_micros() as u64);
+        }
+        f.members += 1;
+        f.max_us = f.max_us.max(us);
+        let res = match &r {
+            Ok(true) => {
+                f.ok += 1;
+                "ok"
+            }
+            Ok(false) => {
+                f.err += 1;
+                "err"
+            }
+            Err(_) => {
+                f.panics += 1;
+                "panic"
+            }
+        };
+        let slow = us > SLOW_US;
+        if slow {
+            f.slow += 1;
+        }
+        if r.is_err() || slow {
+            let shown = &input[..input.len().min(4096)];
+            if f.first_bad.is_empty() {
+                f.first_bad = hex(&input[..input.len().min(256)]);
+            }
+            self.flagged += 1;
+            if self.flagged <= 200 {
+                t.ev(json!({"op": "member", "codec": self.codec, "class": CLASSES[class], "index": f.members - 1, "tail": tail,
+                            "detail": detail, "res": if r.is_err() { "panic" } else { "slow" }, "us": us,
+                            "msg": r.err().unwrap_or_default(), "len": input.len(), "input": hex(shown), "outcome": res}));
+            }
+        }
+    }
+
+    /// The member as it is, and the same bytes with each kind of stale tail behind them.
+    fn member(&mut self, t: &mut Trace, class: usize, input: &[u8], detail: Value) {
+        self.one(t, class, input, "", &detail);
+        for i in 0..self.tails.len() + 1 {
+            let mut s = std::mem::take(&mut self.scratch);
+            s.clear();
+            s.extend_from_slice(input);
+            let name;
+            if i < self.tails.len() {
+                s.extend_from_slice(&self.tails[i].1);
+                name = self.tails[i].0;
+            } else {
+                // the rest of a longer earlier message at the same offset, then zeros
+                if self.earlier.len() > input.len() {
+                    s.extend_from_slice(&self.earlier[input.len()..]);
+                }
+                s.resize(input.len() + TAIL_LEN, 0);
+                name = "earlier";
+            }
+            self.one(t, 4, &s, name, &detail);
+            self.scratch = s;
+        }
+    }
+
+    fn finish(&mut self, t: &mut Trace) -> (u64, u64) {
+        let mut members = 0;
+        let mut panics = 0;
+        for (i, f) in self.fams.iter().enumerate() {
+            if f.members == 0 {
+                continue;
+            }
+            members += f.members;
+            panics += f.panics;
+            t.ev(json!({"op": "family", "codec": self.codec, "class": CLASSES[i], "members": f.members, "ok": f.ok, "err": f.err,
+                        "panics": f.panics, "slow": f.slow, "max_us": f.max_us, "first_bad": f.first_bad}));
+        }
+        (members, panics)
+    }
+}
+
+fn start_watchdog() {
+    std::thread::spawn(|| {
+        let mut last = u64::MAX;
+        let mut same = 0;
+        loop {
+            std::thread::sleep(std::time::Duration::from_millis(500));
+            let p = PROGRESS.load(Ordering::Relaxed);
+            if p == last && p != 0 {
+                same += 1;
+            } else {
+                same = 0;
+            }
+            last = p;
+            if same >= 40 {
+                // one decode has been running for 20 s: report it instead of hanging the check
+                let c = CURRENT.load(Ordering::Relaxed);
+                println!(
+                    "{}",
+                    json!({"hang": {"codec": c / 1_000_000_000_000, "class": CLASSES[((c / 1_000_000_000) % 1000) as usize], "index": c % 1_000_000_000}})
+                );
+                std::process::exit(0);
+            }
+        }
+    });
+}
+
+/// Positions of a NodeInfo encoding that hold a tag, a length or a count.
+fn ni_positions(b: &[u8]) -> Vec<(usize, &'static str)> {
+    let mut pos = vec![];
+    let (parts, end) = walk(b, 0);
+    for p in &parts {
+        pos.push((p.pos, "tag"));
+        pos.push((p.pos + 1, "len-hi"));
+        pos.push((p.pos + 2, "len-lo"));
+        let body = p.pos + 3;
+        match p.tag {
+            1 => {
+                let mut q = body;
+                while q < body + p.len {
+                    pos.push((q, "peer-flags"));
+                    let f = b[q];
+                    q += 1 + if f & 0x80 != 0 { 16 } else { 0 } + ((f & 0x38) as usize / 8) * 18 + (f & 7) as usize * 6;
+                }
+            }
+            2 => {
+                let mut q = body;
+                while q < body + p.len {
+                    pos.push((q, "claim-len"));
+                    q += 1 + b[q] as usize;
+                    pos.push((q, "claim-prefix"));
+                    q += 1;
+                }
+            }
+            5 => pos.push((body, "addrs-flags")),
+            _ => {}
+        }
+    }
+    pos.push((end, "end"));
+    pos
+}
+
+fn random_tlv(rng: &mut StdRng, maxlen: usize, tags: &[u8]) -> Vec<u8> {
+    let mut b = vec![];
+    let n = rng.gen_range(0..8);
+    for _ in 0..n {
+        let tag = if rng.gen_bool(0.85) { tags[rng.gen_range(0..tags.len())] } else { rng.gen() };
+        let blen = match rng.gen_range(0..10) {
+            0 => 0,
+            1 => rng.gen_range(0..400),
+            _ => rng.gen_range(0..40),
+        };
+        let claimed: usize = match rng.gen_range(0..12) {
+            0 => rng.gen_range(0..65536),
+            1 => blen + 1,
+            2 => blen.saturating_sub(1),
+            _ => blen,
+        };
+        b.push(tag);
+        if tag != 0 || rng.gen_bool(0.3) {
+            b.push((claimed >> 8) as u8);
+            b.push(claimed as u8);
+        }
+        let mut body = vec![0u8; blen];
+        rng.fill_bytes(&mut body);
+        if rng.gen_bool(0.5) {
+            // small count / length bytes make the inner parsers go further
+            for x in body.iter_mut() {
+                if rng.gen_bool(0.3) {
+                    *x = [0, 1, 4, 8, 9, 16, 17, 0x80, 0x89][rng.gen_range(0..9)];
+                }
+            }
+        }
+        b.extend_from_slice(&body);
+    }
+    if rng.gen_bool(0.7) {
+        b.push(0);
+    }
+    b.truncate(maxlen);
+    b
+}
+
+fn total_nodeinfo(t: &mut Trace, thorough: bool) -> (u64, u64, u64) {
+    let mut rng = rng(1611);
+    let dec = |b: &[u8]| NodeInfo::decode(Cursor::new(b)).is_ok();
+    // valid encodings, some with unknown parts
+    let mut bases: Vec<Vec<u8>> = vec![];
+    let shapes: Vec<NiShape> = vec![
+        NiShape { peers: vec![], claims: vec![], timeout: false, own: (0, 0) },
+        NiShape { peers: vec![(true, 1, 1)], claims: vec![(4, 24)], timeout: true, own: (1, 0) },
+        NiShape { peers: vec![(false, 7, 7), (true, 0, 0), (true, 9, 9)], claims: vec![(16, 128), (0, 0), (6, 48)], timeout: true, own: (7, 7) },
+        NiShape { peers: (0..20).map(|i| (i % 2 == 0, i % 4, i % 3)).collect(), claims: vec![(4, 32); 5], timeout: false, own: (2, 1) },
+        NiShape { peers: vec![(true, 2, 0)], claims: (0..=16).map(|l| (l, 8 * l)).collect(), timeout: true, own: (0, 3) },
+    ];
+    for s in &shapes {
+        let info = build_ni(&mut rng, s);
+        let e = encode_ni(&info).expect("encode");
+        let (parts, _) = wparts(&e, 0);
+        bases.push(e);
+        let at = rng.gen_range(0..=parts.len());
+        let mut b = vec![];
+        put_parts(&mut b, &insert_parts(&parts, &[(at, unknown_part(&mut rng, 5))]));
+        bases.push(b);
+    }
+    for _ in 0..(if thorough { 40 } else { 3 }) {
+        let s = NiShape {
+            peers: (0..rng.gen_range(0..=20)).map(|_| (rng.gen(), rng.gen_range(0..=9), rng.gen_range(0..=9))).collect(),
+            claims: (0..rng.gen_range(0..6)).map(|_| (rng.gen_range(0..=16), rng.gen())).collect(),
+            timeout: rng.gen(),
+            own: (rng.gen_range(0..=9), rng.gen_range(0..=9)),
+        };
+        bases.push(encode_ni(&build_ni(&mut rng, &s)).expect("encode"));
+    }
+    let earlier = bases.iter().max_by_key(|b| b.len()).unwrap().clone();
+    let mut tot = Totality::new("nodeinfo", 0, &dec, earlier, &mut rng);
+    for (bi, b) in bases.iter().enumerate() {
+        if b.len() > 5000 {
+            continue;
+        }
+        for n in 0..b.len() {
+            tot.member(t, 0, &b[..n], json!({"base": bi, "cut": n}));
+        }
+        for (p, what) in ni_positions(b) {
+            for v in SUBST {
+                if b[p] != v {
+                    let mut m = b.clone();
+                    m[p] = v;
+                    tot.member(t, 1, &m, json!({"base": bi, "pos": p, "what": what, "value": v}));
+                }
+            }
+        }
+    }
+    // crafted: a peer list of 65535 empty entries, a claim of maximal length byte, a part longer than the message
+    let mut big = vec![4u8, 0, 16];
+    big.extend_from_slice(&[7u8; 16]);
+    big.extend_from_slice(&[1, 0xff, 0xff]);
+    big.extend(std::iter::repeat(0u8).take(65535));
+    big.push(0);
+    tot.one(t, 3, &big, "", &json!({"crafted": "65535 empty peer entries"}));
+    tot.one(t, 3, &[2, 0, 3, 0xff, 1, 2, 0], "", &json!({"crafted": "claim length 255"}));
+    tot.one(t, 3, &[9, 0xff, 0xff, 1, 2, 3], "", &json!({"crafted": "unknown part longer than the message"}));
+    let nrand = if thorough { 200_000 } else { 30_000 };
+    for i in 0..nrand {
+        let len = if i % 50 == 0 { 2048 } else { rng.gen_range(0..=2048) };
+        let mut b = vec![0u8; len];
+        rng.fill_bytes(&mut b);
+        tot.member(t, 2, &b, json!({"seed_index": i}));
+        let s = random_tlv(&mut rng, 2048, &[0, 1, 2, 3, 4, 5, 6, 9]);
+        tot.member(t, 3, &s, json!({"seed_index": i}));
+    }
+    let (m, p) = tot.finish(t);
+    (m, p, tot.flagged)
+}
+
+/// Positions of a handshake datagram that hold a tag, a length, the stage, an algorithm id, or the signature length.
+fn im_positions(b: &[u8]) -> Vec<(usize, &'static str)> {
+    let mut pos = vec![];
+    let (parts, end) = walk(b, 8);
+    for p in &parts {
+        pos.push((p.pos, "tag"));
+        pos.push((p.pos + 1, "len-hi"));
+        pos.push((p.pos + 2, "len-lo"));
+        if p.tag == IM_STAGE {
+            pos.push((p.pos + 3, "stage"));
+        }
+        if p.tag == IM_ALGOS {
+            for i in 0..p.len / 5 {
+                pos.push((p.pos + 3 + 5 * i, "algo-id"));
+            }
+        }
+    }
+    pos.push((end, "end"));
+    pos.push((end + 1, "sig-len"));
+    pos
+}
+
+fn total_init(t: &mut Trace, thorough: bool) -> (u64, u64, u64) {
+    let mut rng = rng(1612);
+    let keys = make_keys(&mut rng);
+    let trusted = keys.trusted.clone();
+    let dec = move |b: &[u8]| InitMsg::verif_read_from(b, &trusted).is_ok();
+    let mut buf = vec![0u8; 70000];
+    let mut bases: Vec<Vec<u8>> = vec![];
+    for (stage, ids, unenc, keylen, paylen) in
+        [(1u8, vec![1u8, 2, 3], false, 32usize, 0usize), (1, vec![3], true, 32, 0), (2, vec![2, 1], false, 32, 150), (2, vec![], true, 32, 1200), (3, vec![], false, 0, 90), (3, vec![], false, 0, 0)]
+    {
+        let m = gen_im(&mut rng, stage, &ids, unenc, keylen, paylen);
+        let len = m.verif_write_to(&mut buf, &keys.pair).expect("write");
+        let bytes = buf[..len].to_vec();
+        let (parts, _) = wparts(&bytes, 8);
+        let at = rng.gen_range(0..=parts.len());
+        let spliced = assemble_im(&bytes, &insert_parts(&parts, &[(at, unknown_part(&mut rng, 5))]), &keys.pair);
+        bases.push(bytes);
+        if spliced.len() < 3000 {
+            bases.push(spliced);
+        }
+    }
+    let prefix: Vec<u8> = bases[0][..8].to_vec();
+    let earlier = bases.iter().max_by_key(|b| b.len()).unwrap().clone();
+    let mut tot = Totality::new("init", 1, &dec, earlier, &mut rng);
+    for (bi, b) in bases.iter().enumerate() {
+        for n in 0..b.len() {
+            tot.member(t, 0, &b[..n], json!({"base": bi, "cut": n}));
+        }
+        for (p, what) in im_positions(b) {
+            for v in SUBST {
+                if b[p] != v {
+                    let mut m = b.clone();
+                    m[p] = v;
+                    tot.member(t, 1, &m, json!({"base": bi, "pos": p, "what": what, "value": v}));
+                }
+            }
+        }
+    }
+    // random bytes behind a genuine key selector (anything else is dropped before the part parser)
+    let nrand = if thorough { 100_000 } else { 16_000 };
+    for i in 0..nrand {
+        let mut b = prefix.clone();
+        if i % 2 == 0 {
+            let len = if i % 50 == 0 { 2040 } else { rng.gen_range(0..=2040) };
+            let mut r = vec![0u8; len];
+            rng.fill_bytes(&mut r);
+            b.extend_from_slice(&r);
+        } else {
+            b.extend_from_slice(&random_tlv(&mut rng, 1900, &[0, 1, 2, 3, 4, 5, 6, 9]));
+            let sl: u8 = if rng.gen_bool(0.6) { 64 } else { rng.gen() };
+            b.push(sl);
+            let mut r = vec![0u8; rng.gen_range(0..80)];
+            rng.fill_bytes(&mut r);
+            b.extend_from_slice(&r);
+        }
+        tot.member(t, 2, &b, json!({"seed_index": i}));
+    }
+    // correctly signed datagrams made of arbitrary part sequences: the parser is exercised behind the signature check
+    let nstruct = if thorough { 60_000 } else { 10_000 };
+    for i in 0..nstruct {
+        let mut parts: Vec<WPart> = vec![];
+        for _ in 0..rng.gen_range(0..8) {
+            let tag = if rng.gen_bool(0.9) { rng.gen_range(1..=6) } else { rng.gen_range(1..=255) };
+            let natural = match tag {
+                1 => 1,
+                2 => 20,
+                3 => 32,
+                4 => 5 * rng.gen_range(0..5),
+                _ => rng.gen_range(0..60),
+            };
+            let len = match rng.gen_range(0..8) {
+                0 => natural + 1,
+                1 => natural.max(1) - 1,
+                2 => rng.gen_range(0..300),
+                _ => natural,
+            };
+            let mut body = vec![0u8; len];
+            rng.fill_bytes(&mut body);
+            if (tag == 1 || tag == 4) && !body.is_empty() {
+                for c in 0..body.len() {
+                    if (tag == 1 && c == 0) || (tag == 4 && c % 5 == 0) {
+                        body[c] = rng.gen_range(0..6);
+                    }
+                }
+            }
+            parts.push(WPart { tag, body });
+        }
+        let b = assemble_im(&prefix, &parts, &keys.pair);
+        tot.member(t, 3, &b, json!({"seed_index": i, "tags": tags_of(&parts)}));
+    }
+    let (m, p) = tot.finish(t);
+    (m, p, tot.flagged)
+}
+
+fn total_rotation(t: &mut Trace, thorough: bool) -> (u64, u64, u64) {
+    let mut rng = rng(1613);
+    let dec = |b: &[u8]| RotationMessage::read_from(Cursor::new(b)).is_ok();
+    let mut bases: Vec<Vec<u8>> = vec![];
+    for (p, c) in [(32usize, 0usize), (32, 32), (0, 0), (255, 255), (1, 200)] {
+        let id = rng.gen();
+        bases.push(rot_bytes(&mut rng, id, p, c));
+    }
+    bases.extend(genuine_rotation_messages(4));
+    let earlier = bases.iter().max_by_key(|b| b.len()).unwrap().clone();
+    let mut tot = Totality::new("rotation", 2, &dec, earlier, &mut rng);
+    for (bi, b) in bases.iter().enumerate() {
+        for n in 0..b.len() {
+            tot.member(t, 0, &b[..n], json!({"base": bi, "cut": n}));
+        }
+        let plen = b[8] as usize;
+        for (p, what) in [(8usize, "propose-len"), (9 + plen, "confirm-len")] {
+            for v in 0..=255u8 {
+                if b[p] != v {
+                    let mut m = b.clone();
+                    m[p] = v;
+                    tot.member(t, 1, &m, json!({"base": bi, "pos": p, "what": what, "value": v}));
+                }
+            }
+        }
+    }
+    for i in 0..(if thorough { 100_000 } else { 20_000 }) {
+        let len = if i % 50 == 0 { 2048 } else { rng.gen_range(0..=2048) };
+        let mut b = vec![0u8; len];
+        rng.fill_bytes(&mut b);
+        tot.member(t, 2, &b, json!({"seed_index": i}));
+    }
+    let (m, p) = tot.finish(t);
+    (m, p, tot.flagged)
+}
+
+fn total(thorough: bool, path: &str) -> Value {
+    start_watchdog();
+    let mut t = Trace::create(path);
+    let t0 = Instant::now();
+    let (m1, p1, f1) = total_nodeinfo(&mut t, thorough);
+    let (m2, p2, f2) = total_init(&mut t, thorough);
+    let (m3, p3, f3) = total_rotation(&mut t, thorough);
+    let events = t.finish();
+    json!({"runs": 3, "steps": m1 + m2 + m3, "events": events, "panics": p1 + p2 + p3, "flagged": f1 + f2 + f3,
+           "members": {"nodeinfo": m1, "init": m2, "rotation": m3}, "wall_ms": t0.elapsed().as_millis() as u64,
+           "peer_entry_bytes": std::mem::size_of::<PeerInfo>()})
+}
+
+/// `codec decode <nodeinfo|init|rotation> <file with hex>`: one input through the real decoder (replay of a flagged member).
+fn decode_one(codec: &str, path: &str) -> Value {
+    let text = std::fs::read_to_string(path).expect("hex file");
+    let bytes = unhex(text.trim());
+    let r = match codec {
+        "nodeinfo" => guarded(|| NodeInfo::decode(Cursor::new(&bytes[..])).is_ok()),
+        "init" => {
+            let keys = make_keys(&mut rng(1612)); // the key set of total_init
+            guarded(|| InitMsg::verif_read_from(&bytes, &keys.trusted).is_ok())
+        }
+        "rotation" => guarded(|| RotationMessage::read_from(Cursor::new(&bytes[..])).is_ok()),
+        _ => return json!({"error": "unknown codec"}),
+    };
+    match r {
+        Ok(true) => json!({"res": "ok", "msg": "", "len": bytes.len()}),
+        Ok(false) => json!({"res": "err", "msg": "", "len": bytes.len()}),
+        Err(m) => json!({"res": "panic", "msg": m, "len": bytes.len()}),
+    }
+}
+
+/// `codec observe`: what happens *behind* the decoders when a well-formed message carries an ECDH key of a wrong
+/// length (the decoders take any length).  Not part of C16's verdict; reported as an observation.
+fn observe() -> Value {
+    use crate::crypto::verif_export::InitState;
+    use std::sync::Arc;
+    let mut rng = rng(1620);
+    // rotation: a responder receives message 1 with a 31-byte proposed key
+    let mut out = MsgBuffer::new(8);
+    let mut b = RotationState::new(false, &mut out);
+    let short = rot_bytes(&mut rng, 1, 31, 0);
+    let rot = match guarded(|| b.handle_message(&short).is_ok()) {
+        Ok(ok) => json!({"res": if ok { "ok" } else { "err" }, "msg": ""}),
+        Err(m) => json!({"res": "panic", "msg": m}),
+    };
+    // handshake: a responder receives a correctly signed ping whose ECDH part has 31 bytes
+    let mut seed = [0u8; 32];
+    rng.fill_bytes(&mut seed);
+    let pair = Arc::new(Ed25519KeyPair::from_seed_unchecked(&seed).expect("key pair"));
+    let mut pk = [0u8; 32];
+    pk.copy_from_slice(pair.public_key().as_ref());
+    let trusted: Arc<[[u8; 32]]> = vec![pk].into();
+    let algorithms = Algorithms { algorithm_speeds: smallvec::smallvec![(&AES_128_GCM, 100.0f32)], allow_unencrypted: false };
+    let payload = NodeInfo { node_id: [1; 16], peers: SmallVec::new(), claims: SmallVec::new(), peer_timeout: None, addrs: SmallVec::new() };
+    let mut resp: InitState<NodeInfo> = InitState::new([2; 16], payload, pair.clone(), trusted, algorithms.clone());
+    let ping = gen_im(&mut rng, 1, &[1], false, 31, 0);
+    let mut buf = vec![0u8; 4096];
+    let len = ping.verif_write_to(&mut buf, &pair).expect("write");
+    let mut m = MsgBuffer::new(8);
+    m.clone_from(&buf[..len]);
+    let init = match guarded(|| resp.handle_init(&mut m).map(|_| ()).map_err(|e| e.to_string())) {
+        Ok(r) => json!({"res": if r.is_ok() { "ok" } else { "err" }, "msg": r.err().unwrap_or_default()}),
+        Err(e) => json!({"res": "panic", "msg": e}),
+    };
+    json!({"rotation_short_key": rot, "ping_short_ecdh_key": init})
 }
